@@ -363,7 +363,7 @@ func execute(ks *kits, ageBin string, c *cmdT, root string, limitBytes int) (*ou
 		args = append(args, "-o", "-")
 	case "devnull":
 		args = append(args, "-o", "/dev/null")
-	case "fifo":
+	case "fifo", "fifo_gone":
 		o.outPath = filepath.Join(dir, "out.fifo")
 		if err := syscall.Mkfifo(o.outPath, 0o600); err != nil {
 			vk.Infra("mkfifo: %v", err)
@@ -384,11 +384,12 @@ func execute(ks *kits, ageBin string, c *cmdT, root string, limitBytes int) (*ou
 	}
 	var pre []byte
 	var fifoDone chan []byte
-	if c.Out == "fifo" {
+	if c.Out == "fifo" || c.Out == "fifo_gone" {
 		// somebody reads the FIFO; whatever arrives until the writer closes is the output
 		fifoDone = make(chan []byte, 1)
 		path := o.outPath
 		late := id%2 == 0
+		gone := c.Out == "fifo_gone"
 		go func() {
 			if late {
 				// the reader attaches late: a writer that does not wait for it loses what it writes
@@ -399,7 +400,15 @@ func execute(ks *kits, ageBin string, c *cmdT, root string, limitBytes int) (*ou
 				fifoDone <- nil
 				return
 			}
-			b, _ := io.ReadAll(f)
+			var b []byte
+			if gone {
+				// the reader has seen enough after ten bytes and leaves
+				b = make([]byte, 10)
+				n, _ := io.ReadFull(f, b)
+				b = b[:n]
+			} else {
+				b, _ = io.ReadAll(f)
+			}
 			f.Close()
 			fifoDone <- b
 		}()
@@ -552,7 +561,7 @@ func judge(run *vk.Run, ks *kits, cs *ccase, o *outcome, want, pre []byte, fullL
 	}
 	headerRefusal := c.Op == "dec" && (c.Damage == "hdrbit" || c.Damage == "mac" || c.Damage == "wrongkey" || c.Damage == "garbage")
 	if (headerRefusal || c.Flagerr != "none" || c.Input == "missing") && o.outPath != "" && c.Out != "limit" {
-		if c.Out == "fifo" {
+		if c.Out == "fifo" || c.Out == "fifo_gone" {
 			if len(o.outBytes) > 0 {
 				run.Violation("C15:output-created-on-refusal:"+statusSig(c), s+": decryption was refused at the header (or the command line was invalid) yet bytes were written to the -o FIFO", rp)
 				return
@@ -620,7 +629,7 @@ func Run(tier string) {
 			continue // an empty result for a full device: whether that is "delivered" is not decided by the property
 		}
 		interesting := c.Cmd.Flagerr != "none" || c.Cmd.Input == "missing" || (c.Cmd.Size == 0 && c.Cmd.Out != "stdout" && c.Cmd.Out != "new")
-		nonRegular := ((c.Cmd.Out == "devnull" || c.Cmd.Out == "fifo") && c.Cmd.Key != "scrypt" && (i+int(run.Seed))%3 == 0) || c.Cmd.Out == "tty" || c.Cmd.Out == "tty_dash"
+		nonRegular := ((c.Cmd.Out == "devnull" || c.Cmd.Out == "fifo" || c.Cmd.Out == "fifo_gone") && c.Cmd.Key != "scrypt" && (i+int(run.Seed))%3 == 0) || c.Cmd.Out == "tty" || c.Cmd.Out == "tty_dash"
 		if !run.Thorough() && !interesting && !nonRegular && (i+int(run.Seed))%7 != 0 {
 			continue
 		}
@@ -773,6 +782,40 @@ func keygen(run *vk.Run, kg, root string) {
 			os.WriteFile(victim, orig, 0o644)
 		}
 		run.Distinct("keygen:-o existing via " + short(sp))
+	}
+	// an existing file is an existing file whatever it holds and whatever its mode: empty (touch, mktemp), one byte, a
+	// key file; 0644, 0600, 0640; directly or through a link; with and without -y
+	for ci, content := range [][]byte{{}, {'\n'}, orig} {
+		for _, mode := range []os.FileMode{0o644, 0o600, 0o640} {
+			for _, via := range []string{"direct", "link"} {
+				for _, y := range []bool{false, true} {
+					name := fmt.Sprintf("pre%d_%o.key", ci, mode)
+					path := filepath.Join(dir, name)
+					os.Remove(path)
+					os.WriteFile(path, content, mode)
+					os.Chmod(path, mode)
+					target := name
+					if via == "link" {
+						target = "l_" + name
+						os.Remove(filepath.Join(dir, target))
+						os.Symlink(name, filepath.Join(dir, target))
+					}
+					args := []string{"-o", target}
+					if y {
+						args = []string{"-y", "-o", target, idf}
+					}
+					p = vk.RunProc(20*time.Second, dir, nil, []byte{}, kg, args...)
+					now, _ := os.ReadFile(path)
+					st, _ := os.Stat(path)
+					run.Eval(1)
+					label := fmt.Sprintf("%d bytes/mode %o/%s/y=%v", len(content), mode, via, y)
+					if p.Exit == 0 || !bytes.Equal(now, content) || st == nil || st.Mode().Perm() != mode {
+						run.Violation("C15:keygen-overwrites:existing "+label, fmt.Sprintf("age-keygen %s where the -o target exists (%s): exit %d, content changed: %v, now %d bytes", strings.Join(args[:len(args)-0], " "), label, p.Exit, !bytes.Equal(now, content), len(now)), map[string]interface{}{"check": "C15.keygen", "case": "existing " + label})
+					}
+					run.Distinct("keygen:existing " + label)
+				}
+			}
+		}
 	}
 	// a dangling symlink is not an existing file; whatever happens, a key file that appears must be owner-only
 	os.Symlink("nowhere.key", filepath.Join(dir, "dangling.key"))
